@@ -10,6 +10,7 @@ import XlVerif.Spec.C15
   * `match <key S> <A:rows> <mt S>`          → `impl=<Res>` `spec=<I:p|E:NA|->`
   * `vlookup <key S> <A:rows> <col S> <B:rl>`→ `impl=<Res>` `spec=<S|E:NA|ERR|->`
   * `choose <index S> <A:values>`            → `impl=<Res>` `spec=<S|E:VALUE|->`
+  * `sortidx <A:cells> <B:reverse>`          → `impl=<i,j,…|X:Kind|U>`  (original positions in `sorted` order)
 
   `spec=-` means: the statement does not constrain this input.
 -/
@@ -166,6 +167,16 @@ def handle (fields : List String) : String :=
                  | none => "E:VALUE")
          | _ => "-"
        kv [("impl", impl), ("spec", spec)]
+     | _, _ => "error=bad-args")
+  | ["sortidx", cells, rv] =>
+    (match flatOfWire? cells, S.ofWire? rv with
+     | some l, some (.bool r) =>
+       let items : List Item := l.zipIdx.map fun (x, i) => (i, x)
+       let out := match sortItems (if r then items.reverse else items) with
+         | .error k => "X:" ++ k.wire
+         | .ok none => "U"
+         | .ok (some s) => ",".intercalate ((if r then s.reverse else s).map fun it => toString it.1)
+       kv [("impl", out)]
      | _, _ => "error=bad-args")
   | _ => "error=bad-request"
 
